@@ -66,6 +66,9 @@ func NewRun(s *Script) (*Run, error) {
 // Close stops what is still running and removes the scratch files. A crashed (abandoned) wallet
 // is not stopped: its goroutines are frozen inside the wrapper.
 func (r *Run) Close() {
+	if HoldBackground && r.Ctl != nil {
+		r.Ctl.Release()
+	}
 	if r.W != nil && (r.Ctl == nil || r.Ctl.Defuse()) {
 		done := make(chan struct{})
 		go func() { r.W.Stop(); close(done) }()
@@ -161,10 +164,27 @@ func (r *Run) useWallet(num int) error {
 	return err
 }
 
+// HoldBackground (set by a command before any run; C18): the background worker is held while the
+// API call that queues its task (import, remove) runs and released when the next operation starts,
+// and the reads of the harness' own polling are not numbered — so that every numbered call of the
+// background work falls into the window of the operation that waits for it, at the same number in
+// every replay of a script.
+var HoldBackground bool
+
+const workerFn = "masswallet.worker"
+
 // Exec performs operation i.
 func (r *Run) Exec(i int) Outcome {
 	op := &r.S.Ops[i]
 	var out Outcome
+	if HoldBackground && r.Ctl != nil {
+		r.Ctl.Skip("sim.(*Wallet).WaitTasks")
+		if op.Kind == OpImport || op.Kind == OpRemove {
+			r.Ctl.Hold(workerFn)
+		} else {
+			r.Ctl.Release()
+		}
+	}
 	switch op.Kind {
 	case OpCreate:
 		ws := r.S.Wallets[op.W]
